@@ -129,7 +129,7 @@ def _(c):
     the branch's pre-order sequence by `node.data_id == id`, cut to the first k.  The `match` path (regex /
     predicate through the generator `_search`) is only *assumed* here and decided by the bounded tier."""
     c.param("self", "node").param("data", "none", "data").param("match", "none", "cb").param("data_id", "none", "id").param("add_self", "true", "false").param("max_results", "none", "int")
-    c.families = ("plain",)
+    c.families = ("plain", "typed")
     c.result_tag = "lref"
     c.modifies("llen", "litem", "lalloc")
     c.assumed_variants = lambda tags: tags["data"] == "none" and tags["data_id"] == "none" and tags["match"] == "none"
@@ -184,7 +184,7 @@ def _(c):
     """data / data_id path proved against Node.find_all's contract (limit 1): the first node of Pre(self) that
     carries the id, None if there is none.  The match path is assumed (bounded tier), see Node.find_all."""
     c.param("self", "node").param("data", "none", "data").param("match", "none", "cb").param("data_id", "none", "id")
-    c.families = ("plain",)
+    c.families = ("plain", "typed")
     c.result_tag = "node?"
     c.modifies("llen", "litem", "lalloc")
     c.assumed_variants = lambda tags: tags["data"] == "none" and tags["data_id"] == "none" and tags["match"] == "none"
